@@ -57,7 +57,8 @@ CHECKS = {
               "replayed on every ordinal axis class of abtem.core.axes with python and numpy index objects; dict round trips "
               "are run for every axis class found by introspection (each single-field deviation + random combinations, both "
               "to_dict/from_dict and axis_to_dict/axis_from_dict) and LinearAxis coordinates for a rational lattice; "
-              "AxesTrace.tla decides sliced/concatenated values, per-field round-trip equality and offset + i x sampling."),
+              "AxesTrace.tla decides sliced/concatenated values, per-field round-trip equality and offset + i x sampling."
+              " Batch 7: the serialised dict is read twice and the serialised axis is looked at again afterwards."),
         technique="TLA+ sequence-semantics model (TLC) + spec-generated index histories replayed on the real axis classes + TLC trace validation",
         design_ref="DESIGN.md 5 C35",
         note=NOTE_COMMON + " Field values are compared through an interning that identifies equal numbers and ndarray/tuple but distinguishes tuple from list.",
@@ -83,7 +84,8 @@ CHECKS = {
               "Custom scans with endpoint variants, distributions via divide and via Aperture/CTF transforms, FrozenPhonons "
               "seeds, AtomsEnsemble, Waves/Images with ordinal, linear, positions and frozen-phonon axes, eager and lazy) both "
               "through generate_blocks and ensemble_blocks().compute(); EnsembleTrace.tla decides that each block holds exactly "
-              "the members its chunk range selects, in order, each block index once, slices = ranges, lazy = eager."),
+              "the members its chunk range selects, in order, each block index once, slices = ranges, lazy = eager."
+              " Batch 7: the lazy blocks of every ensemble are computed in ONE dask graph with those of a sibling ensemble (same kind, shape, chunking, other parameters) and both are judged; scans that were partitioned, moved (same extent and gpts) and partitioned again."),
         technique="TLA+ partition model (TLC) + TLC-enumerated chunkings executed on the real ensemble classes + TLC trace validation",
         design_ref="DESIGN.md 5 C19",
         note=NOTE_COMMON + " Member identities are interned values (positions rounded to 1e-5, values+weights, seeds, array fill ids + axis values).",
@@ -120,7 +122,8 @@ CHECKS = {
               "PotentialArray objects with 0-2 ensemble axes from 9 axis kinds (float32 values, units=None, private flags...), "
               "several dtypes, lazy/eager, directory/zip, written with to_zarr and read back with from_zarr; StoreTrace.tla decides "
               "equality of type, dtype, shape/array, per-axis field trees and the metadata tree by value."
-              " Round 3: lists of 2-3 measurements saved together (ComputableList.to_zarr)."),
+              " Round 3: lists of 2-3 measurements saved together (ComputableList.to_zarr)."
+              " Batch 7: every fourth round trip continues the store's history - what was loaded lazily is written over its own store with overwrite=True and loaded again - and every third metadata tree is of depth 2 (composed from TLC's depth-1 trees; the codec model is checked to depth 2)."),
         technique="TLA+ codec model (TLC) + spec-generated metadata trees round-tripped through the real zarr IO + TLC trace validation",
         design_ref="DESIGN.md 5 C30",
         note=NOTE_COMMON + " Equality is by value (NumPy scalar == equal Python scalar, ndarray == equal list, tuple != list); dict keys named '_type' are outside the grammar.",
@@ -133,7 +136,8 @@ CHECKS = {
               "replayed on real Waves, Images, DiffractionPatterns, PolarMeasurements and RealSpaceLineProfiles, eager and lazy, "
               "and ArrayOpsTrace.tla decides after every call: values equal NumPy's on the bare array (comparison bit from the "
               "harness), one axis entry per dimension, ordinal values / linear offset+sampling of the selected items, item "
-              "metadata moved into metadata, base axes refused."),
+              "metadata moved into metadata, base axes refused."
+              " Batch 7: after every operation the operand is compared with its snapshot (axes, every axis field, metadata, values; clause operation_changed_its_operand) and axes that continue an operand axis must carry its other fields (half of the histories run on axes with non-default units, tex labels, ensemble_mean flag, endpoint)."),
         technique="TLA+ history machine over axis metadata (TLC) + spec-generated operation histories replayed on real array objects + TLC trace validation",
         design_ref="DESIGN.md 5 C29",
         note=NOTE_COMMON + " Operations that NumPy/dask refuse on the bare array are not compared; an empty linear axis has no coordinates to compare.",
@@ -200,7 +204,8 @@ CHECKS = {
               "MsBegin/MsConfig/MsSlice/MsDetect/MsEnd events are a run of the Multislice machine (detections exactly after the "
               "listed slices, cumulative depth) and decides plane = independent truncated run (logged deviation) and "
               "thickness axis = cumulative thicknesses."
-              " Round 3: frozen-phonon ensembles of 2-3 configurations kept apart, every configuration's series against its own truncated runs."),
+              " Round 3: frozen-phonon ensembles of 2-3 configurations kept apart, every configuration's series against its own truncated runs."
+              " Batch 7: explicit tuples need not end at the last slice (then nothing is recorded for the full run; found and repaired be1ddf9a, deviation ShortcutAnyPlane), lazy series = eager series is a clause of its own, and the same pre-built eager waves are sent through the potential twice and re-read afterwards."),
         technique="TLA+ loop model with symbolic wave terms (TLC) + hook-event trace validation against the run machine (TLC) + numeric comparison with truncated runs",
         design_ref="DESIGN.md 5 C07",
         note=NOTE_COMMON + " Numeric closeness computed by numpy (tolerance 5e-5 of the reference maximum, single precision pipeline).",
@@ -213,7 +218,8 @@ CHECKS = {
               "and lazy with several max_batch; MultisliceTrace.tla validates the event sequence and decides member k = "
               "independent run through the potential built from displaced configuration k, mean member = mean of members, and "
               "that displaced positions are identical across chunkings, modes and iteration orders."
-              " Round 3: the PRISM route (the S-matrix of every configuration reduced at the scan positions) next to PlaneWave and Probe."),
+              " Round 3: the PRISM route (the S-matrix of every configuration reduced at the scan positions) next to PlaneWave and Probe."
+              " Batch 7: two ensembles that differ only in their seeds computed in one dask graph keep their own configurations; snapshots labelled by a user axis and frozen phonons built into a potential array first; lazy = eager is a clause of its own."),
         technique="TLA+ loop model with symbolic wave terms (TLC) + hook-event trace validation (TLC) + numeric comparison with independent per-configuration runs",
         design_ref="DESIGN.md 5 C02",
         note=NOTE_COMMON + " The MsConfig fingerprints are diagnostic only; the verdict is the numeric member comparison (tolerance 5e-5).",
@@ -249,7 +255,8 @@ CHECKS = {
               "only TLC returns Build; SetGpts; Build).  The emitted histories in which a build follows a grid change after an "
               "earlier build are replayed on real Potential objects (infinite/finite projection, 1-3 elements, building directly "
               "and through PlaneWave.multislice); PotentialCacheTrace.tla decides, for every build event, equality with a newly "
-              "constructed potential at the same grid (logged deviation) and that both raise or neither."),
+              "constructed potential at the same grid (logged deviation) and that both raise or neither."
+              " Batch 7: finite projection with one and two elements, built directly and through multislice, in the first histories of every seed."),
         technique="TLA+ history machine with an action property (TLC) + spec-generated histories replayed on real potentials + TLC trace validation",
         design_ref="DESIGN.md 5 C11",
         note=NOTE_COMMON + " The reference is a fresh abTEM potential (metamorphic oracle); tolerance 2e-5.",
@@ -316,7 +323,8 @@ CHECKS = {
               "pixels at 2.1 mrad/pixel, eager and lazy, so every result decodes to the exact set of integrated pixels; "
               "DetectTrace.tla compares the decoded sets with Ring(inner, outer) computed in integer arithmetic, the split "
               "ranges, and every flexible bin with Ring(offset + k w, offset + (k+1) w) for the width w its metadata states."
-              " Round 3: adjacent ranges integrated one after the other from one pattern object; growth probe (drift only): default-limit detectors reused for other waves."),
+              " Round 3: adjacent ranges integrated one after the other from one pattern object; growth probe (drift only): default-limit detectors reused for other waves."
+              " Batch 7: annular and segmented detector objects that have already detected waves of the same gpts on a grid of another extent (clause detector_used_before_on_another_grid)."),
         technique="TLA+ ring algebra on the integer frequency lattice (TLC) + one-hot decoding of the real detectors + TLC trace validation",
         design_ref="DESIGN.md 5 C12",
         note=NOTE_COMMON + " Azimuthal membership of individual segments is not modelled (only their union and uniform response).",
